@@ -1,8 +1,11 @@
 //! C18: every accepted task runs exactly once; ordered collections keep their order.
-//! M+S cells (Coq mechanism model): WorkStealingQueue histories, WorkStealingExecutor::submit,
-//! parallel_map / parallel_reduce / process_batch result collection, BatchCollector.
-//! S-only cells (direct oracle): the running executor on tokio runtimes, FiberPool::spawn,
-//! execute_stream, fiber_yield / fiber_aio helpers, AsyncMemoryBlobStore batches.
+//! M+S cells (Coq mechanism models, coq/C18/Model*.v): WorkStealingQueue histories, WorkStealingExecutor::submit, hook-driven
+//! executor histories (with is_idle / queue-length observers), single-worker execution order with the counters;
+//! FiberPool::spawn histories (semaphore), parallel_map / parallel_for_each / parallel_reduce (result, execution order,
+//! call trace, statistics), concurrency::{parallel_map, join_all, parallel_reduce}, spawn_batch; Pipeline::process_batch / execute_single /
+//! execute_two_stage (error identities, statistics), execute_stream (join loop), BatchCollector (also against the real clock).
+//! S-only cells (direct oracle): the running executor on tokio runtimes, one queue under OS threads, BatchCollector with its
+//! background checker on two threads, fiber_yield / fiber_aio helpers, AsyncMemoryBlobStore batches.
 use crate::util::*;
 use serde_json::{json, Value};
 use std::future::Future;
@@ -26,29 +29,33 @@ const MODEL_FIXED: &str = "true";
 fn header() -> String {
     format!(
         r#"From ZV.Common Require Import Base Run.
-From ZV.C18 Require Import Model.
+From ZV.C18 Require Import Model ModelCases.
 Open Scope N_scope.
 Definition case_t : Type := N * N * N * list Z * list Z.
 Definition ok (c : case_t) : bool :=
-  let '(kind, a, b, ops, expect) := c in eqb_lz (run_case {} kind a b ops) expect.
+  let '(kind, a, b, ops, expect) := c in eqb_lz (run_case2 {} kind a b ops) expect.
 "#,
         MODEL_FIXED
     )
 }
 
+/// number of Coq case kinds (see coq/C18/ModelCases.v)
+const NK: usize = 20;
+
 struct Ctx {
     sum: Summary,
     shards: CoqShards,
-    /// Coq evaluation budget per case kind (queue, submit, map, reduce, collector)
-    budget: [usize; 8],
-    used: [usize; 8],
+    /// Coq evaluation budget per case kind (queue, submit, map, reduce, collector, ...)
+    budget: [usize; NK],
+    used: [usize; NK],
     rng: Rng,
     thorough: bool,
 }
 
 impl Ctx {
     fn coq(&mut self, kind: u32, a: u64, b: u64, ops: &[i64], obs: &[i64], case: &Value, force: bool) {
-        let k = (kind as usize).min(7);
+        // kinds 9 and 11 are the runs of kinds 2 and 3 compared with both models: same budget
+        let k = match kind { 9 | 12 => 2, 11 => 3, 14 => 7, 16 => 6, 17 => 5, k => (k as usize).min(NK - 1) };
         if !force && self.used[k] >= self.budget[k] { return; }
         self.used[k] += 1;
         let term = format!(
@@ -430,10 +437,12 @@ trait HookFallback {
     fn verif_new_paused(_nw: usize, _cap: usize) -> ZResult<Arc<WorkStealingExecutor>> { Err(ZiporaError::configuration("hook missing")) }
     fn verif_find_task(&self, _w: usize) -> Option<Box<dyn Task>> { None }
     fn verif_balance(&self, _w: usize) {}
+    fn verif_queue_lens(&self, _w: usize) -> (usize, usize, usize) { (usize::MAX, 0, 0) }
 }
 impl HookFallback for WorkStealingExecutor {}
 
-/// ops: task code = submit, 10+w = find_task of worker w, 30+w = balance of worker w, 5 = total_queued
+/// ops: task code = submit, 10+w = find_task of worker w, 30+w = balance of worker w, 5 = total_queued,
+/// 6 = is_idle, 40+w = (local, steal, global) queue lengths seen from worker w (where did submit put the task?)
 fn hist_case(cx: &mut Ctx, nw: usize, cap: usize, ops: &[i64], force: bool) {
     let cell = "WorkStealingExecutor/history (hook)";
     let case = json!({"cell": "hist", "kind": 6, "nw": nw, "cap": cap, "ops": ops});
@@ -442,6 +451,7 @@ fn hist_case(cx: &mut Ctx, nw: usize, cap: usize, ops: &[i64], force: bool) {
         let ex = match WorkStealingExecutor::verif_new_paused(nw, cap) { Ok(e) => e, Err(_) => return None };
         let counters: Arc<Vec<AtomicU32>> = Arc::new((0..nsub + 1).map(|_| AtomicU32::new(0)).collect());
         let mut obs: Vec<i64> = vec![];
+        let mut xobs: Vec<i64> = vec![]; // the same history as the fine-grained model sees it (with the observer ops 6 and 40+w)
         let mut accepted = vec![false; nsub];
         let mut out = vec![0u32; nsub];
         let mut problems: Vec<String> = vec![];
@@ -454,11 +464,21 @@ fn hist_case(cx: &mut Ctx, nw: usize, cap: usize, ops: &[i64], force: bool) {
                 let ok = ex.submit(mk_task(next, o, &counters)).is_ok();
                 accepted[next] = ok;
                 obs.push(if ok { 1 } else { 0 });
+                xobs.push(if ok { 1 } else { 0 });
                 next += 1;
+            } else if o >= 40 {
+                let (l, s, g) = ex.verif_queue_lens(((o - 40) as usize).min(nw - 1));
+                if l == usize::MAX { xobs.push(-1); } else { xobs.push(l as i64); xobs.push(s as i64); xobs.push(g as i64); }
             } else if o >= 30 { ex.verif_balance(((o - 30) as usize).min(nw - 1)); }
-            else if o >= 10 { let t = ex.verif_find_task(((o - 10) as usize).min(nw - 1)); obs.push(took(t, &mut out, &mut problems)); }
-            else { obs.push(ex.total_queued() as i64); }
+            else if o >= 10 { let t = ex.verif_find_task(((o - 10) as usize).min(nw - 1)); let v = took(t, &mut out, &mut problems); obs.push(v); xobs.push(v); }
+            else if o == 6 { xobs.push(if ex.is_idle() { 1 } else { 0 }); }
+            else { let q = ex.total_queued() as i64; obs.push(q); xobs.push(q); }
         }
+        xobs.push(-7);
+        xobs.push(ex.total_queued() as i64);
+        xobs.push(if ex.is_idle() { 1 } else { 0 });
+        xobs.push(accepted.iter().filter(|&&b| b).count() as i64);
+        xobs.push(accepted.iter().filter(|&&b| !b).count() as i64);
         obs.push(-7);
         // every worker keeps asking for work until a whole pass finds nothing
         for _ in 0..(nsub + 2) {
@@ -475,6 +495,8 @@ fn hist_case(cx: &mut Ctx, nw: usize, cap: usize, ops: &[i64], force: bool) {
             if !accepted[i] && out[i] > 0 { problems.push(format!("task {} was rejected by submit but handed out", i)); break; }
         }
         if problems.is_empty() && (left != 0 || !ex.is_idle()) { problems.push(format!("all tasks handed out but total_queued = {} / is_idle = {}", left, ex.is_idle())); }
+        obs.push(-8);
+        obs.extend_from_slice(&xobs);
         Some((obs, problems))
     });
     match r {
@@ -483,7 +505,8 @@ fn hist_case(cx: &mut Ctx, nw: usize, cap: usize, ops: &[i64], force: bool) {
         Ok(Some((obs, problems))) => {
             cx.sum.eval(cell, &format!("h {} {} {:?}", nw, cap, ops), nsub >= 2 && ops.iter().any(|&o| (10..1000).contains(&o)));
             let stripped: Vec<i64> = ops.iter().map(|&o| if o >= 1000 { o % 10000 } else { o }).collect();
-            cx.coq(6, nw as u64, cap as u64, &stripped, &obs, &case, force);
+            // the old model on the history without the observer ops, then the fine-grained executor model on all of it
+            cx.coq(16, nw as u64, cap as u64, &stripped, &obs, &case, force);
             if let Some(p) = problems.first() { cx.sum.fail(cell, None, case, p); }
         }
     }
@@ -541,19 +564,31 @@ fn order_case(cx: &mut Ctx, cap: usize, codes: &[i64], force: bool) {
         tokio::time::sleep(Duration::from_millis(1)).await;
         let order = log.lock().unwrap().clone();
         let queued = ex.total_queued();
+        // the statistics once the worker has come to rest: total_executed, active_tasks, is_idle
+        let t1 = Instant::now();
+        while !(ex.is_idle() && ex.stats().total_executed as usize >= order.len()) && t1.elapsed() < Duration::from_millis(500) { tokio::time::sleep(Duration::from_micros(300)).await; }
+        let st = ex.stats();
+        let fin = vec![ex.total_queued() as i64, st.total_executed as i64, st.active_tasks as i64, if ex.is_idle() { 1 } else { 0 }];
         let _ = ex.shutdown().await;
-        Some((accept, order, queued))
+        Some((accept, order, queued, fin))
     }));
     match r {
         Err(p) => cx.sum.fail(cell, None, case, &format!("panicked: {}", p)),
         Ok(None) => cx.sum.fail(cell, None, case, "executor creation failed"),
-        Ok(Some((accept, order, queued))) => {
+        Ok(Some((accept, order, queued, fin))) => {
             let mut obs: Vec<i64> = accept.iter().map(|&b| if b { 1 } else { 0 }).collect();
             obs.push(-7);
             obs.extend(order.iter().map(|&i| i as i64));
             obs.push(-7);
             obs.push(queued as i64);
-            cx.coq(5, cap as u64, 0, &cv, &obs, &case, force);
+            // ... and the same run against the worker loop as a sequence of atomic steps, with the counters
+            obs.push(-8);
+            obs.extend(accept.iter().map(|&b| if b { 1 } else { 0 }));
+            obs.push(-7);
+            obs.extend(order.iter().map(|&i| i as i64));
+            obs.push(-7);
+            obs.extend_from_slice(&fin);
+            cx.coq(17, cap as u64, 0, &cv, &obs, &case, force);
             let mut seen = vec![0u32; n];
             for &i in &order { if i < n { seen[i] += 1; } }
             let bad: Vec<usize> = (0..n).filter(|&i| (accept[i] && seen[i] != 1) || (!accept[i] && seen[i] != 0)).collect();
@@ -600,6 +635,32 @@ fn rand_items(r: &mut Rng, n: usize, fail: u64) -> Vec<i64> {
     v
 }
 
+type Log = Arc<std::sync::Mutex<Vec<usize>>>;
+fn new_log() -> Log { Arc::new(std::sync::Mutex::new(Vec::new())) }
+fn pool_cfg(max_fibers: usize, max_workers: usize) -> FiberPoolConfig {
+    FiberPoolConfig { max_fibers, initial_workers: 1, max_workers, queue_capacity: 16, idle_timeout: Duration::from_secs(1) }
+}
+/// total_spawned, active_fibers, completed, failed, and the number of free permits as far as the public API
+/// shows it: `shutdown()` returns once all `max_fibers` permits are free (-1: it did not within 2 s)
+async fn pool_stats(pool: &FiberPool, max_fibers: usize) -> Vec<i64> {
+    let st = pool.stats();
+    let free = match tokio::time::timeout(Duration::from_secs(2), pool.shutdown()).await { Ok(Ok(())) => max_fibers as i64, _ => -1 };
+    vec![st.total_spawned as i64, st.active_fibers as i64, st.completed as i64, st.failed as i64, free]
+}
+/// parallel_map / parallel_for_each return at the first error while later fibers are still owed their one
+/// execution: wait (bounded) until `n` bodies have started, then let them finish
+async fn wait_bodies(log: &Log, n: usize) {
+    let t0 = Instant::now();
+    while log.lock().unwrap().len() < n && t0.elapsed() < Duration::from_secs(3) { tokio::time::sleep(Duration::from_micros(300)).await; }
+    for _ in 0..8 { tokio::task::yield_now().await; }
+    tokio::time::sleep(Duration::from_millis(1)).await;
+}
+fn visit_problem(log: &[usize], n: usize) -> Option<String> {
+    let mut seen = vec![0u32; n];
+    for &i in log { if i < n { seen[i] += 1; } else { return Some(format!("a body ran for the unknown item {}", i)); } }
+    if seen.iter().any(|&c| c != 1) { Some(format!("visit counts {:?} (every item must be processed exactly once)", seen)) } else { None }
+}
+
 /// which: 0 FiberPool::parallel_map, 1 concurrency::parallel_map, 2 join_all over spawn, 3 FiberPool::spawn_batch + await
 fn pmap_case(cx: &mut Ctx, which: u64, rt: usize, max_fibers: usize, xs: &[i64], panics: bool, force: bool) {
     let cell = ["FiberPool::parallel_map", "concurrency::parallel_map", "concurrency::join_all", "FiberPool::spawn_batch"][which as usize];
@@ -607,13 +668,22 @@ fn pmap_case(cx: &mut Ctx, which: u64, rt: usize, max_fibers: usize, xs: &[i64],
     cx.sum.eval(cell, &format!("pm {} {} {} {} {:?}", which, rt, max_fibers, panics, xs), xs.len() >= 2);
     cx.sum.dist(&format!("pmap_len_vs_fibers={}", if xs.len() < max_fibers { "below" } else if xs.len() == max_fibers { "equal" } else { "above" }));
     let xv = xs.to_vec();
+    let log = new_log();
+    let stats: Arc<std::sync::Mutex<Vec<i64>>> = Arc::new(std::sync::Mutex::new(vec![]));
+    let (lg, stc) = (log.clone(), stats.clone());
     let r = guarded(|| with_rt(rt, async move {
         tokio::time::timeout(hang_for(max_fibers), async move {
             let f = move |x: i64| if panics { stage_p(x) } else { stage(x) };
             match which {
                 0 => {
-                    let pool = FiberPool::new(FiberPoolConfig { max_fibers, initial_workers: 1, max_workers: 2, queue_capacity: 16, idle_timeout: Duration::from_secs(1) })?;
-                    pool.parallel_map(xv, f).await
+                    let pool = FiberPool::new(pool_cfg(max_fibers, 2))?;
+                    let n = xv.len();
+                    let items: Vec<(usize, i64)> = xv.into_iter().enumerate().collect();
+                    let l2 = lg.clone();
+                    let res = pool.parallel_map(items, move |(i, x): (usize, i64)| { l2.lock().unwrap().push(i); f(x) }).await;
+                    wait_bodies(&lg, n).await;
+                    *stc.lock().unwrap() = pool_stats(&pool, max_fibers).await;
+                    res
                 }
                 1 => zipora::concurrency::parallel_map(xv, f).await,
                 2 => {
@@ -621,7 +691,7 @@ fn pmap_case(cx: &mut Ctx, which: u64, rt: usize, max_fibers: usize, xs: &[i64],
                     zipora::concurrency::join_all(hs).await
                 }
                 _ => {
-                    let pool = FiberPool::new(FiberPoolConfig { max_fibers, initial_workers: 1, max_workers: 2, queue_capacity: 16, idle_timeout: Duration::from_secs(1) })?;
+                    let pool = FiberPool::new(pool_cfg(max_fibers, 2))?;
                     let hs = pool.spawn_batch(xv.into_iter().map(|x| async move { f(x) }));
                     let mut out = vec![];
                     let mut err = None;
@@ -638,27 +708,44 @@ fn pmap_case(cx: &mut Ctx, which: u64, rt: usize, max_fibers: usize, xs: &[i64],
         Ok(Err(_)) => cx.sum.fail(cell, None, case, "did not return (8 s; 0.7 s when the limit is 0)"),
         Ok(Ok(res)) => {
             let got = res.ok();
-            if !panics && !(max_fibers == 0 && (which == 0 || which == 3)) { cx.coq(2, 0, 0, xs, &obs_opt(&got), &case, force); }
+            let order: Vec<usize> = log.lock().unwrap().clone();
+            let st: Vec<i64> = stats.lock().unwrap().clone();
+            if which == 0 && rt == 0 && max_fibers > 0 && st.len() == 5 {
+                // current-thread runtime: the order in which the bodies run and the statistics are deterministic too;
+                // compared with the FiberPool state machine (and, without panics, with the result-collection model as before)
+                let mut obs: Vec<i64> = vec![];
+                if !panics { obs.extend(obs_opt(&got)); obs.push(-8); }
+                obs.extend(obs_opt(&got));
+                obs.push(-7);
+                obs.extend(order.iter().map(|&i| i as i64));
+                obs.push(-7);
+                obs.extend_from_slice(&st);
+                let mut cj = case.clone();
+                cj["kind"] = json!(9);
+                cx.coq(9, max_fibers as u64, if panics { 1 } else { 0 }, xs, &obs, &cj, force);
+            } else if !panics && !(max_fibers == 0 && (which == 0 || which == 3)) { cx.coq(2, 0, 0, xs, &obs_opt(&got), &case, force); }
             if got != want {
                 cx.sum.fail(cell, None, case, &format!("returned {:?}, applying the function in input order gives {:?}", got, want));
+            } else if which == 0 && max_fibers > 0 {
+                if let Some(p) = visit_problem(&order, xs.len()) { cx.sum.fail(cell, None, case, &p); }
             }
         }
     }
 }
 
-fn foreach_case(cx: &mut Ctx, rt: usize, max_fibers: usize, xs: &[i64]) {
+fn foreach_case(cx: &mut Ctx, rt: usize, max_fibers: usize, xs: &[i64], force: bool) {
     let cell = "FiberPool::parallel_for_each";
-    let case = json!({"cell": "foreach", "kind": 11, "rt": rt, "max_fibers": max_fibers, "ops": xs});
+    let case = json!({"cell": "foreach", "kind": 10, "rt": rt, "max_fibers": max_fibers, "ops": xs});
     cx.sum.eval(cell, &format!("fe {} {} {:?}", rt, max_fibers, xs), xs.len() >= 2);
-    cx.sum.cell_status(cell, "S-only");
     let n = xs.len();
-    let visits: Arc<Vec<AtomicU32>> = Arc::new((0..n + 1).map(|_| AtomicU32::new(0)).collect());
+    let log = new_log();
     let items: Vec<(usize, i64)> = xs.iter().cloned().enumerate().collect();
-    let v2 = visits.clone();
+    let lg = log.clone();
     let r = guarded(|| with_rt(rt, async move {
         tokio::time::timeout(hang_for(max_fibers), async move {
-            let pool = FiberPool::new(FiberPoolConfig { max_fibers, initial_workers: 1, max_workers: 2, queue_capacity: 16, idle_timeout: Duration::from_secs(1) })?;
-            let res = pool.parallel_for_each(items, move |(i, x): (usize, i64)| { v2[i].fetch_add(1, Ordering::SeqCst); stage(x).map(|_| ()) }).await;
+            let pool = FiberPool::new(pool_cfg(max_fibers, 2))?;
+            let l2 = lg.clone();
+            let res = pool.parallel_for_each(items, move |(i, x): (usize, i64)| { l2.lock().unwrap().push(i); stage(x).map(|_| ()) }).await;
             // parallel_for_each returns at the first error; the other fibers are still owed their one execution
             let t0 = Instant::now();
             loop {
@@ -666,9 +753,7 @@ fn foreach_case(cx: &mut Ctx, rt: usize, max_fibers: usize, xs: &[i64]) {
                 if st.completed + st.failed >= st.total_spawned || t0.elapsed() > Duration::from_secs(3) { break; }
                 tokio::time::sleep(Duration::from_micros(300)).await;
             }
-            let _ = tokio::time::timeout(Duration::from_secs(3), pool.shutdown()).await;
-            let st = pool.stats();
-            Ok::<_, ZiporaError>((res.is_ok(), st.total_spawned, st.completed + st.failed, st.active_fibers))
+            Ok::<_, ZiporaError>((res.is_ok(), pool_stats(&pool, max_fibers).await))
         }).await
     }));
     let want_ok = seq_map(xs, false).is_some();
@@ -676,13 +761,101 @@ fn foreach_case(cx: &mut Ctx, rt: usize, max_fibers: usize, xs: &[i64]) {
         Err(p) => cx.sum.fail(cell, None, case, &format!("panicked: {}", p)),
         Ok(Err(_)) => cx.sum.fail(cell, None, case, "did not return (8 s; 0.7 s when the limit is 0)"),
         Ok(Ok(Err(e))) => cx.sum.fail(cell, None, case, &format!("pool error {:?}", e)),
-        Ok(Ok(Ok((ok, spawned, finished, active)))) => {
-            let v: Vec<u32> = (0..n).map(|i| visits[i].load(Ordering::SeqCst)).collect();
-            if ok != want_ok { cx.sum.fail(cell, None, case, &format!("returned ok={} but sequential application gives ok={}", ok, want_ok)); }
-            else if v.iter().any(|&c| c != 1) { cx.sum.fail(cell, None, case, &format!("visit counts {:?} (every item must be visited exactly once)", v)); }
-            else if spawned != n as u64 || finished != n as u64 || active != 0 {
-                cx.sum.fail(cell, None, case, &format!("3 s after the call: spawned {} finished {} active {} for {} items", spawned, finished, active, n));
+        Ok(Ok(Ok((ok, st)))) => {
+            let order: Vec<usize> = log.lock().unwrap().clone();
+            if rt == 0 {
+                let mut obs: Vec<i64> = vec![if ok { 1 } else { 0 }, -7];
+                obs.extend(order.iter().map(|&i| i as i64));
+                obs.push(-7);
+                obs.extend_from_slice(&st);
+                cx.coq(10, max_fibers as u64, 0, xs, &obs, &case, force);
             }
+            let (spawned, active, finished, free) = (st[0], st[1], st[2] + st[3], st[4]);
+            if ok != want_ok { cx.sum.fail(cell, None, case, &format!("returned ok={} but sequential application gives ok={}", ok, want_ok)); }
+            else if let Some(p) = visit_problem(&order, n) { cx.sum.fail(cell, None, case, &p); }
+            else if spawned != n as i64 || finished != n as i64 || active != 0 || free < 0 {
+                cx.sum.fail(cell, None, case, &format!("3 s after the call: spawned {} finished {} active {} (shutdown() returned: {}) for {} items", spawned, finished, active, free >= 0, n));
+            }
+        }
+    }
+}
+
+/// A FiberPool history (M+S): `codes[i]` is what the body of fiber i does once its gate opens (0 = Ok(100+i),
+/// 1 = Err, 2 = panic); all fibers are spawned with `spawn_batch` on a current-thread runtime, then the harness
+/// opens the gates in the order `gates` (missing ones are appended) and lets the runtime settle after each.
+/// Observed after the spawn and after every gate: active_fibers, completed, failed, which handles are finished;
+/// at the end what every handle yields, the order in which the bodies ran, the statistics.
+fn pool_hist_case(cx: &mut Ctx, max_fibers: usize, codes: &[i64], gates_in: &[i64], force: bool) {
+    let cell = "FiberPool::spawn (semaphore history)";
+    let n = codes.len();
+    let mut gates: Vec<i64> = gates_in.iter().cloned().filter(|&g| g >= 0 && (g as usize) < n).collect();
+    for i in 0..n { if !gates.contains(&(i as i64)) { gates.push(i as i64); } }
+    let case = json!({"cell": "poolhist", "kind": 8, "max_fibers": max_fibers, "ops": codes, "gates": gates});
+    cx.sum.eval(cell, &format!("ph {} {:?} {:?}", max_fibers, codes, gates), n >= 2);
+    cx.sum.dist(&format!("poolhist_fibers_vs_permits={}", if n < max_fibers { "below" } else if n == max_fibers { "equal" } else { "above" }));
+    let cv = codes.to_vec();
+    let gv = gates.clone();
+    let log = new_log();
+    let lg = log.clone();
+    let r = guarded(|| with_rt(0, async move {
+        tokio::time::timeout(HANG, async move {
+            let pool = FiberPool::new(pool_cfg(max_fibers, 2))?;
+            let mut txs: Vec<Option<tokio::sync::oneshot::Sender<()>>> = vec![];
+            let mut futs = vec![];
+            for (i, &c) in cv.iter().enumerate() {
+                let (tx, rx) = tokio::sync::oneshot::channel::<()>();
+                txs.push(Some(tx));
+                let l2 = lg.clone();
+                futs.push(async move {
+                    let _ = rx.await;
+                    l2.lock().unwrap().push(i);
+                    match c { 0 => Ok(100 + i as i64), 1 => Err(ZiporaError::invalid_data("body failed")), _ => panic!("body panicked") }
+                });
+            }
+            let hs = pool.spawn_batch(futs);
+            let rounds = 3 * n + 8;
+            let look = |pool: &FiberPool, hs: &Vec<zipora::concurrency::FiberHandle<i64>>| -> Vec<i64> {
+                let st = pool.stats();
+                let mut bits = 0i64;
+                for (i, h) in hs.iter().enumerate() { if h.is_finished() { bits |= 1 << i; } }
+                vec![st.active_fibers as i64, st.completed as i64, st.failed as i64, bits]
+            };
+            let mut obs: Vec<i64> = vec![];
+            for _ in 0..rounds { tokio::task::yield_now().await; }
+            obs.extend(look(&pool, &hs));
+            for &g in &gv {
+                if let Some(tx) = txs[g as usize].take() { let _ = tx.send(()); }
+                for _ in 0..rounds { tokio::task::yield_now().await; }
+                obs.extend(look(&pool, &hs));
+            }
+            obs.push(-7);
+            let mut results: Vec<i64> = vec![];
+            for h in hs {
+                if h.is_finished() { results.push(match h.await { Ok(v) => v, Err(_) => -1 }); } else { results.push(-9); }
+            }
+            obs.extend_from_slice(&results);
+            obs.push(-7);
+            let order: Vec<usize> = lg.lock().unwrap().clone();
+            obs.extend(order.iter().map(|&i| i as i64));
+            obs.push(-7);
+            let st = pool_stats(&pool, max_fibers).await;
+            obs.extend_from_slice(&st);
+            Ok::<_, ZiporaError>((obs, results, order, st))
+        }).await
+    }));
+    match r {
+        Err(p) => cx.sum.fail(cell, None, case, &format!("panicked: {}", p)),
+        Ok(Err(_)) => cx.sum.fail(cell, None, case, "did not return (8 s)"),
+        Ok(Ok(Err(e))) => cx.sum.fail(cell, None, case, &format!("pool error {:?}", e)),
+        Ok(Ok(Ok((obs, results, order, st)))) => {
+            let mut ops: Vec<i64> = codes.to_vec();
+            ops.extend_from_slice(&gates);
+            cx.coq(8, max_fibers as u64, n as u64, &ops, &obs, &case, force);
+            // the property: every spawned fiber ran exactly once and its handle yields its own result
+            let want: Vec<i64> = codes.iter().enumerate().map(|(i, &c)| if c == 0 { 100 + i as i64 } else { -1 }).collect();
+            if let Some(p) = visit_problem(&order, n) { cx.sum.fail(cell, None, case, &format!("all gates open, but {}", p)); }
+            else if results != want { cx.sum.fail(cell, None, case, &format!("the handles yield {:?} (-1 = error, -9 = never finished), want {:?}", results, want)); }
+            else if st[0] != n as i64 || st[4] < 0 { cx.sum.fail(cell, None, case, &format!("{} fibers: total_spawned = {}, shutdown() returned: {}", n, st[0], st[4] >= 0)); }
         }
     }
 }
@@ -693,17 +866,31 @@ fn reduce_case(cx: &mut Ctx, which: u64, rt: usize, mw: usize, xs: &[i64], force
     let case = json!({"cell": "reduce", "kind": 3, "which": which, "rt": rt, "mw": mw, "ops": xs});
     cx.sum.eval(cell, &format!("rd {} {} {} {:?}", which, rt, mw, xs), xs.len() >= 2);
     let items: Vec<Vec<i64>> = xs.iter().map(|&x| vec![x]).collect();
+    let max_fibers = [4usize, 1, 2][mw % 3];
+    // the accumulator length at every call of the function: shows how the input was cut into chunks
+    let trace = new_log();
+    let stats: Arc<std::sync::Mutex<Vec<i64>>> = Arc::new(std::sync::Mutex::new(vec![]));
+    let (tr, stc) = (trace.clone(), stats.clone());
     let r = guarded(|| with_rt(rt, async move {
         tokio::time::timeout(hang_for(mw), async move {
             // concatenation: associative with identity [], not commutative - any reordering or loss shows
-            let f = |mut a: Vec<i64>, b: Vec<i64>| -> ZResult<Vec<i64>> {
+            let f = move |mut a: Vec<i64>, b: Vec<i64>| -> ZResult<Vec<i64>> {
+                tr.lock().unwrap().push(a.len());
                 if b.iter().any(|x| x.rem_euclid(16) == 13) { return Err(ZiporaError::invalid_data("reduce failed")); }
                 a.extend(b);
                 Ok(a)
             };
             if which == 0 {
-                let pool = FiberPool::new(FiberPoolConfig { max_fibers: 4, initial_workers: 1, max_workers: mw, queue_capacity: 16, idle_timeout: Duration::from_secs(1) })?;
-                pool.parallel_reduce(items, vec![], f).await
+                let pool = FiberPool::new(pool_cfg(max_fibers, mw))?;
+                let res = pool.parallel_reduce(items, vec![], f).await;
+                let t0 = Instant::now();
+                loop {
+                    let st = pool.stats();
+                    if st.completed + st.failed >= st.total_spawned || t0.elapsed() > Duration::from_secs(3) { break; }
+                    tokio::time::sleep(Duration::from_micros(300)).await;
+                }
+                *stc.lock().unwrap() = pool_stats(&pool, max_fibers).await;
+                res
             } else {
                 zipora::concurrency::parallel_reduce(items, vec![], f).await
             }
@@ -715,9 +902,34 @@ fn reduce_case(cx: &mut Ctx, which: u64, rt: usize, mw: usize, xs: &[i64], force
         Ok(Err(_)) => cx.sum.fail(cell, None, case, "did not return (8 s; 0.7 s when the limit is 0)"),
         Ok(Ok(res)) => {
             let got = res.ok();
+            let st: Vec<i64> = stats.lock().unwrap().clone();
             if which == 0 {
                 let k = std::cmp::max(1, xs.len() / mw.max(1));
-                cx.coq(3, k as u64, 0, xs, &obs_opt(&got), &case, force);
+                if rt == 0 && st.len() == 5 {
+                    // the result-collection model with the chunk size computed here, as before, then the FiberPool model,
+                    // which derives the chunking from (len, max_workers) itself: result, call trace, statistics
+                    let mut obs: Vec<i64> = obs_opt(&got);
+                    obs.push(-8);
+                    obs.extend(obs_opt(&got));
+                    obs.push(-7);
+                    obs.extend(trace.lock().unwrap().iter().map(|&l| l as i64));
+                    obs.push(-7);
+                    obs.extend_from_slice(&st);
+                    let mut cj = case.clone();
+                    cj["kind"] = json!(11);
+                    cx.coq(11, mw as u64, (k * 1000 + max_fibers) as u64, xs, &obs, &cj, force);
+                } else {
+                    cx.coq(3, k as u64, 0, xs, &obs_opt(&got), &case, force);
+                }
+            } else if rt == 0 {
+                // concurrency::parallel_reduce: chunk_size = ceil(len / num_cpus::get()); FiberPoolConfig::default() reports the same number
+                let ncpu = FiberPoolConfig::default().initial_workers.max(1);
+                let mut obs: Vec<i64> = obs_opt(&got);
+                obs.push(-7);
+                obs.extend(trace.lock().unwrap().iter().map(|&l| l as i64));
+                let mut cj = case.clone();
+                cj["kind"] = json!(18);
+                cx.coq(18, ncpu as u64, 0, xs, &obs, &cj, force);
             }
             if got != want { cx.sum.fail(cell, None, case, &format!("returned {:?}, the sequential fold gives {:?}", got, want)); }
         }
@@ -741,10 +953,18 @@ fn seq_map_slow(xs: &[i64]) -> Option<Vec<i64>> {
     seq_map(xs, false)
 }
 
+/// the identity of an error the pipeline returns: 1 the stage's own error, 2 "stage timeout", 3 "batch processing
+/// timeout", 4 a panicked stage task (join error), 5 "no stages provided", 9 anything else
+fn err_code(e: &ZiporaError) -> i64 {
+    let m = format!("{:?}", e);
+    if m.contains("batch processing timeout") { 3 } else if m.contains("stage timeout") { 2 } else if m.contains("stage task failed") { 4 }
+    else if m.contains("no stages") { 5 } else if m.contains("stage failed") { 1 } else { 9 }
+}
+
 /// which: 0 MapStage, 1 BatchMapStage without batch fn, 2 BatchMapStage with batch fn, 3 SlowStage (timeouts), 4 SlowStage with default process_batch
 fn batch_case(cx: &mut Ctx, which: u64, enable_batching: bool, xs: &[i64], force: bool) {
     let cell = "Pipeline::process_batch";
-    let case = json!({"cell": "process_batch", "kind": 2, "which": which, "batching": enable_batching, "ops": xs});
+    let case = json!({"cell": "process_batch", "kind": 12, "which": which, "batching": enable_batching, "ops": xs});
     cx.sum.eval(cell, &format!("pb {} {} {:?}", which, enable_batching, xs), xs.len() >= 2);
     let xv = xs.to_vec();
     let r = guarded(|| with_rt(0, async move {
@@ -754,23 +974,35 @@ fn batch_case(cx: &mut Ctx, which: u64, enable_batching: bool, xs: &[i64], force
             if which >= 3 { cfg.stage_timeout = Duration::from_millis(8); }
             let p = Pipeline::new(cfg);
             type Fb = fn(Vec<i64>) -> ZResult<Vec<i64>>;
-            match which {
+            let res = match which {
                 0 => p.process_batch(MapStage::new("m".to_string(), stage), xv).await,
                 1 => p.process_batch(BatchMapStage::<fn(i64) -> ZResult<i64>, Fb>::new("bm".to_string(), stage), xv).await,
                 2 => p.process_batch(BatchMapStage::with_batch_support("bb".to_string(), stage,
                         |b: Vec<i64>| -> ZResult<Vec<i64>> { b.into_iter().map(stage).collect() }), xv).await,
                 3 => p.process_batch(SlowStage { batching: false }, xv).await,
                 _ => p.process_batch(SlowStage { batching: true }, xv).await,
-            }
+            };
+            let st = p.stats().await;
+            (res, st.items_in_flight as i64, st.total_processed as i64)
         }).await
     }));
     let want = if which >= 3 { seq_map_slow(xs) } else { seq_map(xs, false) };
     match r {
         Err(p) => cx.sum.fail(cell, None, case, &format!("panicked: {}", p)),
         Ok(Err(_)) => cx.sum.fail(cell, None, case, "did not return (8 s; 0.7 s when the limit is 0)"),
-        Ok(Ok(res)) => {
-            let got = res.ok();
-            if which < 3 { cx.coq(2, 0, 0, xs, &obs_opt(&got), &case, force); }
+        Ok(Ok((res, in_flight, processed))) => {
+            // the model of process_batch as written: the result with the identity of the error (the first failing item's own
+            // error, the per-item or the whole-batch timeout) and the statistics; for the stages without timeouts preceded
+            // by the result-collection model as before
+            let path = if enable_batching && (which == 2 || which == 4) { 1 } else { 0 };
+            let mut obs: Vec<i64> = vec![];
+            let got = res.as_ref().ok().cloned();
+            if which < 3 { obs.extend(obs_opt(&got)); obs.push(-8); }
+            match &res { Ok(v) => { obs.push(1); obs.extend_from_slice(v); } Err(e) => { obs.push(0); obs.push(err_code(e)); } }
+            obs.push(-7);
+            obs.push(in_flight);
+            obs.push(processed);
+            cx.coq(12, path, (if which >= 3 { 1 } else { 0 }) + (if which < 3 { 2 } else { 0 }), xs, &obs, &case, force);
             if got != want { cx.sum.fail(cell, None, case, &format!("returned {:?}, applying the stage in input order gives {:?}", got, want)); }
         }
     }
@@ -778,18 +1010,18 @@ fn batch_case(cx: &mut Ctx, which: u64, enable_batching: bool, xs: &[i64], force
 
 fn single_case(cx: &mut Ctx, xs: &[i64]) {
     let cell = "Pipeline::execute_single/two_stage";
-    cx.sum.cell_status(cell, "S-only");
     for &x in xs {
-        let case = json!({"cell": "single", "kind": 12, "ops": [x]});
+        let case = json!({"cell": "single", "kind": 13, "ops": [x]});
         cx.sum.eval(cell, &format!("sg {}", x), true);
         let r = guarded(|| with_rt(0, async move {
             tokio::time::timeout(HANG, async move {
                 let mut cfg = PipelineConfig::default();
                 cfg.stage_timeout = Duration::from_millis(8);
                 let p = Pipeline::new(cfg);
-                let a = p.execute_single(SlowStage { batching: false }, x).await.ok();
-                let b = p.execute_two_stage(SlowStage { batching: false }, MapStage::new("m".to_string(), stage), x).await.ok();
-                (a, b)
+                let a = p.execute_single(SlowStage { batching: false }, x).await;
+                let b = p.execute_two_stage(SlowStage { batching: false }, MapStage::new("m".to_string(), stage), x).await;
+                let st = p.stats().await;
+                (a, b, st.items_in_flight as i64, st.total_processed as i64)
             }).await
         }));
         let w1 = seq_map_slow(&[x]).map(|v| v[0]);
@@ -797,7 +1029,14 @@ fn single_case(cx: &mut Ctx, xs: &[i64]) {
         match r {
             Err(p) => cx.sum.fail(cell, None, case, &format!("panicked: {}", p)),
             Ok(Err(_)) => cx.sum.fail(cell, None, case, "did not return (8 s; 0.7 s when the limit is 0)"),
-            Ok(Ok((a, b))) => {
+            Ok(Ok((a, b, in_flight, processed))) => {
+                let mut obs: Vec<i64> = vec![];
+                for r in [&a, &b] { match r { Ok(v) => { obs.push(1); obs.push(*v); } Err(e) => { obs.push(0); obs.push(err_code(e)); } } }
+                obs.push(-7);
+                obs.push(in_flight);
+                obs.push(processed);
+                cx.coq(13, 0, 0, &[x], &obs, &case, true);
+                let (a, b) = (a.ok(), b.ok());
                 if a != w1 { cx.sum.fail(cell, None, case, &format!("execute_single returned {:?}, want {:?}", a, w1)); }
                 else if b != w2 { cx.sum.fail(cell, None, case, &format!("execute_two_stage returned {:?}, want {:?}", b, w2)); }
             }
@@ -807,10 +1046,10 @@ fn single_case(cx: &mut Ctx, xs: &[i64]) {
 
 /// N items through k map stages over bounded channels; outputs must be the stage composition in input order,
 /// and a failing item must surface as Err (with only a correct prefix delivered)
-fn stream_case(cx: &mut Ctx, rt: usize, nstages: usize, buffer: usize, slow: bool, xs: &[i64]) {
+fn stream_case(cx: &mut Ctx, rt: usize, nstages: usize, buffer: usize, slow: bool, panics: bool, xs: &[i64]) {
     let cell = "Pipeline::execute_stream";
-    let case = json!({"cell": "stream", "kind": 13, "rt": rt, "stages": nstages, "buffer": buffer, "slow": slow, "ops": xs});
-    cx.sum.eval(cell, &format!("st {} {} {} {} {:?}", rt, nstages, buffer, slow, xs), xs.len() >= 2);
+    let case = json!({"cell": "stream", "kind": 14, "rt": rt, "stages": nstages, "buffer": buffer, "slow": slow, "panics": panics, "ops": xs});
+    cx.sum.eval(cell, &format!("st {} {} {} {} {} {:?}", rt, nstages, buffer, slow, panics, xs), xs.len() >= 2);
     let xv = xs.to_vec();
     let n = xs.len();
     let r = guarded(|| with_rt(rt, async move {
@@ -821,6 +1060,8 @@ fn stream_case(cx: &mut Ctx, rt: usize, nstages: usize, buffer: usize, slow: boo
             let p = Pipeline::new(cfg);
             let stages: Vec<Box<dyn PipelineStage<i64, i64>>> = (0..nstages).map(|i| if slow && i == 0 {
                 Box::new(SlowStage { batching: false }) as Box<dyn PipelineStage<i64, i64>>
+            } else if panics {
+                Box::new(MapStage::new("s".to_string(), stage_p)) as Box<dyn PipelineStage<i64, i64>>
             } else {
                 Box::new(MapStage::new("s".to_string(), stage)) as Box<dyn PipelineStage<i64, i64>>
             }).collect();
@@ -831,7 +1072,7 @@ fn stream_case(cx: &mut Ctx, rt: usize, nstages: usize, buffer: usize, slow: boo
             let _ = feeder.await;
             let mut outs = vec![];
             while let Some(v) = orx.recv().await { outs.push(v); }
-            (res.is_ok(), outs)
+            (res.is_ok(), outs, res.err().map(|e| err_code(&e)).unwrap_or(0))
         }).await
     }));
     // expected: composition of the stages, item by item (the first stage times out on x = 7 mod 32 when slow)
@@ -839,6 +1080,7 @@ fn stream_case(cx: &mut Ctx, rt: usize, nstages: usize, buffer: usize, slow: boo
         let mut v = x;
         for s in 0..nstages {
             if slow && s == 0 && v.rem_euclid(32) == 7 { return None; }
+            if panics && !(slow && s == 0) && v.rem_euclid(64) == 30 { return None; }
             match stage(v) { Ok(y) => v = y, Err(_) => return None }
         }
         Some(v)
@@ -849,11 +1091,17 @@ fn stream_case(cx: &mut Ctx, rt: usize, nstages: usize, buffer: usize, slow: boo
     match r {
         Err(p) => cx.sum.fail(cell, None, case, &format!("panicked: {}", p)),
         Ok(Err(_)) => cx.sum.fail(cell, None, case, "did not return (8 s; 0.7 s when the limit is 0)"),
-        Ok(Ok((ok, outs))) => {
-            // the verdict, and the output of a successful run, are schedule-independent: compare with the model
-            let mut obs: Vec<i64> = vec![if ok { 1 } else { 0 }];
-            if ok { obs.extend_from_slice(&outs); }
-            cx.coq(7, nstages as u64, if slow { 1 } else { 0 }, xs, &obs, &case, false);
+        Ok(Ok((ok, outs, code))) => {
+            // the verdict, and the output of a successful run, are schedule-independent: compare with the stream model as
+            // before, then with the model that has the join loop and the error identities (the error returned must be the
+            // error of the first failing item of some stage)
+            let mut obs: Vec<i64> = vec![];
+            if !panics { obs.push(if ok { 1 } else { 0 }); if ok { obs.extend_from_slice(&outs); } obs.push(-8); }
+            obs.push(if ok { 1 } else { 0 });
+            if ok { obs.extend_from_slice(&outs); } else { obs.push(code); }
+            let mut ops: Vec<i64> = vec![code];
+            ops.extend_from_slice(xs);
+            cx.coq(14, nstages as u64, (if slow { 1 } else { 0 }) + (if panics { 2 } else { 0 }), &ops, &obs, &case, false);
             if all_ok {
                 if !ok || outs != want { cx.sum.fail(cell, None, case, &format!("ok={} outputs {:?}, want {:?}", ok, outs, want)); }
             } else if ok {
@@ -910,6 +1158,112 @@ fn collector_case(cx: &mut Ctx, maxb: usize, timeout_zero: bool, ops: &[i64], fo
                 cx.sum.fail(cell, None, case, "an empty batch was emitted");
             }
             // (batch sizes are compared through the model only: the property does not fix them)
+        }
+    }
+}
+
+const BC_TIMEOUT_MS: u64 = 25;
+const BC_TICK_MS: u64 = 60;
+
+/// BatchCollector against a real clock (M+S).  ops: 1000+x = add x, 1 = flush, 2 = check_timeout, 3 = wait 60 ms;
+/// batch_timeout = 25 ms.  A check_timeout with no wait since the last flush must not fire, one after a wait must
+/// (if the buffer is non-empty).  The Coq case is emitted only when the run was not stalled (a check within 12 ms
+/// of the last flush when no wait lies in between), so that the model's clock is the real one up to the margins.
+fn collector_clock_case(cx: &mut Ctx, maxb: usize, ops: &[i64], force: bool) {
+    let cell = "BatchCollector (clock)";
+    let case = json!({"cell": "collector_clock", "kind": 15, "maxb": maxb, "ops": ops});
+    cx.sum.eval(cell, &format!("bt {} {:?}", maxb, ops), ops.len() >= 3);
+    let opv = ops.to_vec();
+    let r = guarded(|| with_rt(0, async move {
+        tokio::time::timeout(HANG, async move {
+            let c: BatchCollector<i64> = BatchCollector::new(maxb, Duration::from_millis(BC_TIMEOUT_MS));
+            let mut since = Instant::now(); // the last flush as the harness saw it
+            let mut waited = false;
+            let mut stalled = false;
+            let mut batches: Vec<(i64, Vec<i64>)> = vec![];
+            for &o in &opv {
+                if o == 3 { std::thread::sleep(Duration::from_millis(BC_TICK_MS)); waited = true; continue; }
+                if o == 2 && !waited && since.elapsed() > Duration::from_millis(12) { stalled = true; }
+                let b = if o >= 1000 { c.add(o - 1000).await } else if o == 1 { c.flush().await } else { c.check_timeout().await };
+                if o == 2 && !waited && since.elapsed() > Duration::from_millis(12) { stalled = true; }
+                if let Ok(Some(b)) = b { batches.push((if o >= 1000 { 1000 } else { o }, b)); since = Instant::now(); waited = false; }
+            }
+            let rest = c.len().await;
+            let tail = c.flush().await.ok().flatten().unwrap_or_default();
+            (batches, rest, tail, stalled)
+        }).await
+    }));
+    match r {
+        Err(p) => cx.sum.fail(cell, None, case, &format!("panicked: {}", p)),
+        Ok(Err(_)) => cx.sum.fail(cell, None, case, "did not return (8 s)"),
+        Ok(Ok((batches, rest, tail, stalled))) => {
+            let added: Vec<i64> = ops.iter().filter(|&&o| o >= 1000).map(|&o| o - 1000).collect();
+            let mut flat: Vec<i64> = batches.iter().flat_map(|(_, b)| b.iter().cloned()).collect();
+            flat.extend_from_slice(&tail);
+            if stalled { cx.sum.dist("collector_clock_case_stalled_not_compared"); } else {
+                let mut obs: Vec<i64> = vec![];
+                for (o, b) in &batches { obs.push(*o); obs.extend_from_slice(b); obs.push(-1); }
+                obs.push(-2);
+                obs.extend_from_slice(&tail);
+                cx.coq(15, maxb as u64, BC_TIMEOUT_MS * 1000 + BC_TICK_MS, ops, &obs, &case, force);
+            }
+            if flat != added {
+                cx.sum.fail(cell, None, case, &format!("batches {:?} + remainder {:?} are not the added items {:?} in order", batches, tail, added));
+            } else if rest != tail.len() {
+                cx.sum.fail(cell, None, case, &format!("len() = {} but the final flush returned {} items", rest, tail.len()));
+            } else if batches.iter().any(|(_, b)| b.is_empty()) {
+                cx.sum.fail(cell, None, case, "an empty batch was emitted");
+            }
+        }
+    }
+}
+
+/// BatchCollector with its background timeout checker on a multi-thread runtime (S-only): one producer adds 0..n with
+/// pauses, `start_timeout_checker` flushes concurrently (batch_timeout `timeout_ms`, 0 included).  Every batch (from add,
+/// from the checker, the final flush) must be a run of consecutive items, the batches together must be exactly 0..n -
+/// whatever the interleaving - and once the producer has stopped the checker must flush what is left in the buffer
+/// (polled for up to 2 s): items that sit in the collector for ever have been accepted and never delivered.
+fn collector_checker_case(cx: &mut Ctx, maxb: usize, n: usize, pause_every: usize, timeout_ms: u64) {
+    let cell = "BatchCollector/timeout_checker (threads)";
+    let case = json!({"cell": "collector_checker", "kind": 19, "maxb": maxb, "n": n, "pause_every": pause_every, "timeout_ms": timeout_ms, "ops": (0..n as i64).collect::<Vec<i64>>()});
+    cx.sum.eval(cell, &format!("bk {} {} {} {}", maxb, n, pause_every, timeout_ms), n >= 2);
+    cx.sum.cell_status(cell, "S-only");
+    let r = guarded(|| with_rt(2, async move {
+        tokio::time::timeout(HANG, async move {
+            let c: BatchCollector<i64> = BatchCollector::new(maxb, Duration::from_millis(timeout_ms));
+            let out: Arc<std::sync::Mutex<Vec<Vec<i64>>>> = Arc::new(std::sync::Mutex::new(vec![]));
+            let o2 = out.clone();
+            let h = c.start_timeout_checker(move |b: Vec<i64>| -> Pin<Box<dyn Future<Output = ()> + Send>> {
+                let o3 = o2.clone();
+                Box::pin(async move { o3.lock().unwrap().push(b); })
+            });
+            for i in 0..n as i64 {
+                if let Ok(Some(b)) = c.add(i).await { out.lock().unwrap().push(b); }
+                if pause_every > 0 && (i as usize) % pause_every == pause_every - 1 { tokio::time::sleep(Duration::from_millis(3)).await; }
+            }
+            // the producer is done: the checker owes us the rest of the buffer
+            let t0 = Instant::now();
+            while c.len().await > 0 && t0.elapsed() < Duration::from_secs(2) { tokio::time::sleep(Duration::from_millis(1)).await; }
+            let stuck = c.len().await;
+            tokio::time::sleep(Duration::from_millis(2)).await;
+            h.abort();
+            let _ = h.await;
+            if let Ok(Some(b)) = c.flush().await { out.lock().unwrap().push(b); }
+            let v = out.lock().unwrap().clone();
+            (v, stuck)
+        }).await
+    }));
+    match r {
+        Err(p) => cx.sum.fail(cell, None, case, &format!("panicked: {}", p)),
+        Ok(Err(_)) => cx.sum.fail(cell, None, case, "did not return (8 s)"),
+        Ok(Ok((mut batches, stuck))) => {
+            let broken = batches.iter().find(|b| b.is_empty() || b.windows(2).any(|w| w[1] != w[0] + 1)).cloned();
+            batches.sort_by_key(|b| b.first().cloned().unwrap_or(-1));
+            let flat: Vec<i64> = batches.iter().flat_map(|b| b.iter().cloned()).collect();
+            let want: Vec<i64> = (0..n as i64).collect();
+            if let Some(b) = broken { cx.sum.fail(cell, None, case, &format!("the batch {:?} is empty or not a run of consecutive items", b)); }
+            else if flat != want { cx.sum.fail(cell, None, case, &format!("the batches {:?} are not the items 0..{} exactly once", batches, n)); }
+            else if stuck > 0 { cx.sum.fail(cell, None, case, &format!("{} items were still in the buffer 2 s after the last add: the timeout checker (batch_timeout {} ms) never flushed them", stuck, timeout_ms)); }
         }
     }
 }
@@ -1006,7 +1360,7 @@ fn run_one(cx: &mut Ctx, c: &Value) {
         }
         "hist" => {
             let nw = u(&c["nw"], 1).max(1) as usize;
-            let ops: Vec<i64> = ops.into_iter().filter(|&o| is_task_code(o) || o == 5 || (10..10 + nw as i64).contains(&o) || (30..30 + nw as i64).contains(&o)).collect();
+            let ops: Vec<i64> = ops.into_iter().filter(|&o| is_task_code(o) || o == 5 || o == 6 || (10..10 + nw as i64).contains(&o) || (30..30 + nw as i64).contains(&o) || (40..40 + nw as i64).contains(&o)).collect();
             hist_case(cx, nw, u(&c["cap"], 2) as usize, &ops, true)
         }
         "order" => {
@@ -1014,15 +1368,25 @@ fn run_one(cx: &mut Ctx, c: &Value) {
             order_case(cx, u(&c["cap"], 8) as usize, &ops, true)
         }
         "pmap" => pmap_case(cx, u(&c["which"], 0).min(3), u(&c["rt"], 0) as usize, u(&c["max_fibers"], 4) as usize, &ops, c["panics"].as_bool().unwrap_or(false), true),
-        "foreach" => foreach_case(cx, u(&c["rt"], 0) as usize, u(&c["max_fibers"], 4).max(1) as usize, &ops),
+        "foreach" => foreach_case(cx, u(&c["rt"], 0) as usize, u(&c["max_fibers"], 4).max(1) as usize, &ops, true),
+        "poolhist" => {
+            let ops: Vec<i64> = ops.into_iter().filter(|&o| (0..=2).contains(&o)).take(14).collect();
+            pool_hist_case(cx, u(&c["max_fibers"], 2).max(1) as usize, &ops, &ints(&c["gates"]), true)
+        }
         "reduce" => reduce_case(cx, u(&c["which"], 0).min(1), u(&c["rt"], 0) as usize, u(&c["mw"], 2) as usize, &ops, true),
         "process_batch" => batch_case(cx, u(&c["which"], 0).min(4), c["batching"].as_bool().unwrap_or(false), &ops, true),
         "single" => single_case(cx, &ops),
-        "stream" => stream_case(cx, u(&c["rt"], 0) as usize, u(&c["stages"], 1).max(1) as usize, u(&c["buffer"], 1) as usize, c["slow"].as_bool().unwrap_or(false), &ops),
+        "stream" => stream_case(cx, u(&c["rt"], 0) as usize, u(&c["stages"], 1).max(1) as usize, u(&c["buffer"], 1) as usize, c["slow"].as_bool().unwrap_or(false),
+                                c["panics"].as_bool().unwrap_or(false), &ops),
         "collector" => {
             let ops: Vec<i64> = ops.into_iter().filter(|&o| o >= 1000 || o == 1 || o == 2).collect();
             collector_case(cx, u(&c["maxb"], 2) as usize, c["tz"].as_bool().unwrap_or(false), &ops, true)
         }
+        "collector_clock" => {
+            let ops: Vec<i64> = ops.into_iter().filter(|&o| o >= 1000 || (1..=3).contains(&o)).collect();
+            collector_clock_case(cx, u(&c["maxb"], 2).max(1) as usize, &ops, true)
+        }
+        "collector_checker" => collector_checker_case(cx, u(&c["maxb"], 2).max(1) as usize, ops.len(), u(&c["pause_every"], 3) as usize, u(&c["timeout_ms"], 2)),
         "helper" => helper_case(cx, u(&c["which"], 0).min(6), u(&c["rt"], 0) as usize, u(&c["limit"], 1) as usize, &ops),
         _ => {}
     }
@@ -1049,19 +1413,34 @@ fn enumerate_queue(cx: &mut Ctx, len: usize, alphabet: &[i64], cap: usize, strid
 
 pub fn run(args: &Args) {
     let mut cx = Ctx {
-        sum: Summary::new("C18", "corpus; all WorkStealingQueue histories of <= 6 operations over push(prio 0/1, stealable or not)/pop_local/steal/balance + random histories around the capacity; the running executor with 1, 2, 3, 4 workers on current-thread and multi-thread runtimes, task counts around workers*capacity, around the global overflow and around the balance trigger (100 executed), mixed priorities/stealability/task behaviour (incl. tasks that fail, that panic, and that submit children from inside a worker), workers busy / idle / idle for 120 ms when the tasks arrive, a second wave after a complete drain; executor histories through the paused-executor hook (all interleavings of submit/find_task/balance of small shape for 1 and 2 workers + random ones for 1..4 workers); parallel_map/for_each/reduce, process_batch, execute_stream, BatchCollector and the yield/aio helpers on vectors of length 0..40 with and without failing, panicking and timed-out items, concurrency limits, batch sizes and yield intervals 0, 1, 2, around the input length and beyond. A case is non-trivial when it has >= 2 tasks/items (queue histories: >= 2 pushes and a steal or balance); distinct = distinct canonical case text"),
+        sum: Summary::new("C18", "corpus; all WorkStealingQueue histories of <= 6 operations over push(prio 0/1, stealable or not)/pop_local/steal/balance + random histories around the capacity; the running executor with 1, 2, 3, 4 workers on current-thread and multi-thread runtimes, task counts around workers*capacity, around the global overflow and around the balance trigger (100 executed), mixed priorities/stealability/task behaviour (incl. tasks that fail, that panic, and that submit children from inside a worker), workers busy / idle / idle for 120 ms when the tasks arrive, a second wave after a complete drain; executor histories through the paused-executor hook (all interleavings of submit/find_task/balance of small shape for 1 and 2 workers + random ones for 1..4 workers); FiberPool histories (1..9 gated bodies that succeed, fail or panic, max_fibers 1..n+1, random gate orders); executor histories with is_idle and queue-length observers around the capacity; parallel_map/for_each/reduce, process_batch, execute_single/two_stage, execute_stream (also with panicking stages), BatchCollector (also against the real clock and with its background checker on two threads) and the yield/aio helpers on vectors of length 0..40 with and without failing, panicking and timed-out items, concurrency limits, batch sizes and yield intervals 0, 1, 2, around the input length and beyond. A case is non-trivial when it has >= 2 tasks/items (queue histories: >= 2 pushes and a steal or balance); distinct = distinct canonical case text"),
         shards: CoqShards::new(&header(), 300),
-        budget: if args.thorough { [5000, 600, 1200, 1200, 1200, 600, 4000, 1200] } else { [400, 60, 150, 120, 120, 60, 400, 120] },
-        used: [0; 8],
+        budget: {
+            let mut b = [0usize; NK];
+            let base: [usize; 8] = if args.thorough { [5000, 600, 1200, 1200, 1200, 600, 4000, 1200] } else { [400, 60, 150, 120, 120, 60, 400, 120] };
+            b[..8].copy_from_slice(&base);
+            // 8 pool history, 9 FiberPool::parallel_map, 10 parallel_for_each, 11 FiberPool::parallel_reduce
+            // (9 and 11 count against the budgets of kinds 2 and 3: the same runs, compared with both models)
+            let more: [usize; 4] = if args.thorough { [1500, 0, 400, 0] } else { [60, 0, 40, 0] };
+            b[8..12].copy_from_slice(&more);
+            // 12 process_batch (budget of kind 2), 13 execute_single/two_stage, 14 execute_stream (budget of kind 7), 15 BatchCollector with a clock
+            b[2] += 20;
+            b[13] = 100;
+            b[15] = if args.thorough { 200 } else { 24 };
+            b[18] = if args.thorough { 200 } else { 24 }; // concurrency::parallel_reduce
+            b
+        },
+        used: [0; NK],
         rng: Rng::new(args.seed),
         thorough: args.thorough,
     };
     for c in ["WorkStealingQueue", "WorkStealingExecutor::submit", "FiberPool::parallel_map", "concurrency::parallel_map", "concurrency::join_all",
-              "FiberPool::spawn_batch", "FiberPool::parallel_reduce", "Pipeline::process_batch", "BatchCollector",
-              "WorkStealingExecutor/worker_loop order (1 worker)", "WorkStealingExecutor/history (hook)", "Pipeline::execute_stream"] {
+              "FiberPool::spawn_batch", "FiberPool::parallel_reduce", "FiberPool::parallel_for_each", "Pipeline::process_batch", "BatchCollector",
+              "WorkStealingExecutor/worker_loop order (1 worker)", "WorkStealingExecutor/history (hook)", "Pipeline::execute_stream",
+              "FiberPool::spawn (semaphore history)", "Pipeline::execute_single/two_stage", "BatchCollector (clock)"] {
         cx.sum.cell_status(c, "M+S");
     }
-    cx.sum.cell_status("concurrency::parallel_reduce", "S-only");
+    cx.sum.cell_status("concurrency::parallel_reduce", "M+S");
     if let Some(f) = &args.replay {
         let txt = std::fs::read_to_string(f).expect("replay file");
         let v: Value = serde_json::from_str(&txt).expect("replay json");
@@ -1208,6 +1587,30 @@ pub fn run(args: &Args) {
         let alpha1 = [1001i64, 1003, 1000, 10, 30];
         for len in 1..=5 { enumerate_hist(&mut cx, len, &alpha1, 1, 4, 1); }
         enumerate_hist(&mut cx, 7, &alpha1, 1, 8, if thorough { 1 } else { 97 });
+        // admission made visible: after every submission the (local, steal, global) lengths of the worker it went to and
+        // is_idle(); around the capacity, so that the spill to the global queue and the round-robin choice show
+        let nadm = if thorough { 400 } else { 30 };
+        for k in 0..nadm {
+            let mut r = cx.rng.clone();
+            let nw = *r.pick(&[1usize, 2, 2, 3, 4]);
+            let cap = *r.pick(&[0usize, 1, 1, 2, 3]);
+            let nsub = nw * cap + r.range(1, 4) as usize;
+            let prio_mix = r.below(3);
+            let mut ops: Vec<i64> = vec![];
+            for i in 0..nsub {
+                ops.push(rand_code(&mut r, prio_mix, false));
+                ops.push(40 + (i % nw) as i64);
+                if r.chance(1, 3) { ops.push(6); }
+                if r.chance(1, 4) { ops.push(10 + r.below(nw as u64) as i64); ops.push(6); }
+                if r.chance(1, 6) { ops.push(30 + r.below(nw as u64) as i64); ops.push(40 + r.below(nw as u64) as i64); }
+            }
+            // take everything out again: is_idle() turns true with the last find_task although the harness, like a worker
+            // between find_task and active_tasks += 1, still holds the tasks
+            for _ in 0..(nsub + 1) { for w in 0..nw { ops.push(10 + w as i64); ops.push(6); } }
+            cx.rng = r;
+            if k < 1 { cx.sum.sample(json!({"cell": "hist", "nw": nw, "cap": cap, "ops": ops})); }
+            hist_case(&mut cx, nw, cap, &ops, true);
+        }
         let nrand = if thorough { 30000 } else { 1200 };
         for k in 0..nrand {
             let mut r = cx.rng.clone();
@@ -1218,7 +1621,7 @@ pub fn run(args: &Args) {
             let sub_bias = r.range(3, 8);
             let ops: Vec<i64> = (0..len).map(|_| {
                 if r.below(10) < sub_bias { rand_code(&mut r, prio_mix, false) }
-                else { match r.below(7) { 0..=3 => 10 + r.below(nw as u64) as i64, 4 | 5 => 30 + r.below(nw as u64) as i64, _ => 5 } }
+                else { match r.below(9) { 0..=3 => 10 + r.below(nw as u64) as i64, 4 | 5 => 30 + r.below(nw as u64) as i64, 6 => 5, 7 => 6, _ => 40 + r.below(nw as u64) as i64 } }
             }).collect();
             cx.rng = r;
             if k < 2 { cx.sum.sample(json!({"cell": "hist", "nw": nw, "cap": cap, "ops": ops})); }
@@ -1252,9 +1655,11 @@ pub fn run(args: &Args) {
                 cx.rng = r;
                 for which in 0..4u64 { pmap_case(&mut cx, which, rt, mf.max(1), &xs, false, false); }
                 if n == 3 { pmap_case(&mut cx, 0, rt, 0, &xs, false, false); pmap_case(&mut cx, 3, rt, 0, &xs, false, false); }
-                foreach_case(&mut cx, rt, mf.max(1), &xs);
+                foreach_case(&mut cx, rt, mf.max(1), &xs, false);
+                if rt != 0 { foreach_case(&mut cx, 0, mf.max(1), &xs, false); }
                 for &mw in &[0usize, 1, 2, 3, n.max(2) - 1, n.max(1), n + 1, 100] { reduce_case(&mut cx, 0, rt, mw, &xs, false); }
                 reduce_case(&mut cx, 1, rt, 1, &xs, false);
+                if rt != 0 { reduce_case(&mut cx, 1, 0, 1, &xs, false); }
                 if fail == 0 && n > 0 {
                     // a panicking item is a join error: it must surface as Err
                     let mut ys = xs.clone();
@@ -1263,6 +1668,24 @@ pub fn run(args: &Args) {
                     for which in 0..4u64 { pmap_case(&mut cx, which, rt, mf.max(1), &ys, true, false); }
                 }
             }
+        }
+    }
+
+    // 4b. FiberPool histories: the semaphore under a schedule chosen by the harness
+    {
+        let nph = if thorough { 1500 } else { 50 };
+        for k in 0..nph {
+            let mut r = cx.rng.clone();
+            let n = if k < 4 { k + 1 } else { r.range(2, 9) as usize };
+            let mf = *r.pick(&[1usize, 1, 2, 2, 3, n.max(2) - 1, n, n + 1]);
+            let bad = r.below(3); // 0: no failing body, 1: some fail, 2: fail and panic
+            let codes: Vec<i64> = (0..n).map(|_| if bad >= 1 && r.chance(1, 3) { if bad == 2 && r.chance(1, 2) { 2 } else { 1 } } else { 0 }).collect();
+            // a random order of the gates (Fisher-Yates), sometimes opening a gate of a fiber that is still waiting first
+            let mut gates: Vec<i64> = (0..n as i64).collect();
+            for i in (1..n).rev() { let j = r.below(i as u64 + 1) as usize; gates.swap(i, j); }
+            cx.rng = r;
+            if k < 2 { cx.sum.sample(json!({"cell": "poolhist", "max_fibers": mf, "ops": codes, "gates": gates})); }
+            pool_hist_case(&mut cx, mf.max(1), &codes, &gates, false);
         }
     }
 
@@ -1276,7 +1699,7 @@ pub fn run(args: &Args) {
                 cx.rng = r;
                 for which in 0..3u64 { for &b in &[false, true] { batch_case(&mut cx, which, b, &xs, false); } }
                 for &rt in &[0usize, 2] {
-                    for &(st, buf) in &[(1usize, 1usize), (2, 1), (3, 2), (2, 64), (2, 0)] { stream_case(&mut cx, rt, st, buf, false, &xs); }
+                    for &(st, buf) in &[(1usize, 1usize), (2, 1), (3, 2), (2, 64), (2, 0)] { stream_case(&mut cx, rt, st, buf, false, false, &xs); }
                 }
             }
         }
@@ -1293,8 +1716,13 @@ pub fn run(args: &Args) {
             batch_case(&mut cx, 3, false, &xs, false);
             batch_case(&mut cx, 4, true, &xs, false);
             batch_case(&mut cx, 4, false, &xs, false);
-            stream_case(&mut cx, 0, 2, 2, true, &xs);
-            stream_case(&mut cx, 2, 1, 1, true, &xs);
+            stream_case(&mut cx, 0, 2, 2, true, false, &xs);
+            stream_case(&mut cx, 2, 1, 1, true, false, &xs);
+            // a panicking stage function: the stage task dies, execute_stream must return Err (a join error)
+            let mut ys = xs.clone();
+            ys[i] = 64 * (i as i64) + 30;
+            stream_case(&mut cx, 0, 2, 2, false, true, &ys);
+            stream_case(&mut cx, 2, 3, 1, false, true, &ys);
         }
         single_case(&mut cx, &[5, 13, 7, 39, -3, 4]);
         // BatchCollector histories
@@ -1307,6 +1735,35 @@ pub fn run(args: &Args) {
             let tz = r.chance(1, 2);
             cx.rng = r;
             collector_case(&mut cx, maxb, tz, &ops, false);
+        }
+        // BatchCollector against the real clock: check_timeout before and after the batch timeout has passed
+        let nclock = if thorough { 200 } else { 20 };
+        for k in 0..nclock {
+            let mut r = cx.rng.clone();
+            let maxb = *r.pick(&[2usize, 3, 4, 7]);
+            let len = r.range(3, 12) as usize;
+            let mut ticks = 0;
+            let mut ops: Vec<i64> = (0..len).map(|i| match r.below(8) {
+                0..=3 => 1000 + i as i64,
+                4 | 5 => 2,
+                6 => 1,
+                _ => { if ticks < 2 { ticks += 1; 3 } else { 2 } }
+            }).collect();
+            if k % 3 == 0 { ops.extend_from_slice(&[1000 + len as i64, 2, 3, 2, 2]); }
+            cx.rng = r;
+            if k < 1 { cx.sum.sample(json!({"cell": "collector_clock", "maxb": maxb, "ops": ops})); }
+            collector_clock_case(&mut cx, maxb, &ops, false);
+        }
+        // ... and with its background checker on two threads
+        let nchk = if thorough { 60 } else { 8 };
+        for _ in 0..nchk {
+            let mut r = cx.rng.clone();
+            let maxb = *r.pick(&[2usize, 3, 5, 64]);
+            let n = r.range(2, 60) as usize;
+            let pe = *r.pick(&[0usize, 1, 2, 3, 7]);
+            let tm = *r.pick(&[2u64, 2, 0, 1]);
+            cx.rng = r;
+            collector_checker_case(&mut cx, maxb, n, pe, tm);
         }
     }
 
